@@ -74,7 +74,87 @@ func (c01) Cases(tier string, seed uint64) []core.Case {
 		cfg := core.Config{IndexType: core.IndexTypes[j%3], ShardNum: []int{16, 4, 1, 64, 1024, 3}[(j/3)%6], FileIO: byte((j / 2) % 2), DataFileSize: []int64{1 << 20, 256 << 10, 4 << 20}[r.Intn(3)]}
 		out = append(out, core.Case{Index: len(out), ID: fmt.Sprintf("c01-large-%04d", j), Seed: r.U64(), Data: seqCase{Cfg: cfg, NOps: -nk}})
 	}
+	// writes refused by the environment: the name of the next data file is taken by a directory
+	no := 12
+	if tier == "thorough" {
+		no = 1200
+	}
+	for j := 0; j < no; j++ {
+		cfg := core.Config{IndexType: core.IndexTypes[j%3], ShardNum: []int{1, 4, 16}[r.Intn(3)], FileIO: byte((j / 3) % 2), DataFileSize: []int64{4 << 10, 8 << 10, 16 << 10}[r.Intn(3)]}
+		out = append(out, core.Case{Index: len(out), ID: fmt.Sprintf("c01-refused-%04d", j), Seed: r.U64(), Data: seqCase{Cfg: cfg, NOps: -2, NKeys: r.Range(3, 8)}})
+	}
 	return out
+}
+
+// runRefused: "the most recent SUCCESSFUL Put": while the next data file cannot be created
+// (its name is occupied by a directory) every Put/Delete that needs a rotation returns an
+// error; such a call must leave the mapping exactly as it was - in the live database, and,
+// once the obstacle is gone, after further writes and after a restart.
+func runRefused(c core.Case, sc seqCase, w *core.Worker) core.Result {
+	res := core.Result{}
+	dir := w.Dir("db")
+	s := core.NewSession(dir, sc.Cfg, &res)
+	if !s.Open() {
+		return res
+	}
+	r := core.NewRng(c.Seed)
+	keys := core.GenKeys(r, sc.NKeys)
+	op := func() core.Op {
+		k := keys[r.Intn(len(keys))]
+		if r.Chance(1, 3) {
+			return core.Op{Kind: "del", Key: k}
+		}
+		return core.Op{Kind: "put", Key: k, VLen: r.Range(0, int(sc.Cfg.DataFileSize)/5), VSeed: r.U64() | 1}
+	}
+	for i := r.Range(5, 40); i > 0 && !s.Dead; i-- {
+		s.Exec(op())
+	}
+	files := core.DataFiles(dir)
+	if s.Dead || len(files) == 0 {
+		return res
+	}
+	var last int
+	fmt.Sscanf(files[len(files)-1], "%d.data", &last)
+	obstacle := fmt.Sprintf("%s/%09d.data", dir, last+1)
+	if err := os.Mkdir(obstacle, 0755); err != nil {
+		res.Verdict, res.Note = "inconclusive", "cannot place the obstacle: "+err.Error()
+		return res
+	}
+	s.MayFail = true
+	s.Log = append(s.Log, "-- next data file name occupied by a directory")
+	for i := r.Range(20, 50); i > 0 && !s.Dead; i-- {
+		s.Exec(op())
+		if i%7 == 0 && !s.Dead {
+			s.Exec(core.Op{Kind: "get", Key: keys[r.Intn(len(keys))]})
+		}
+	}
+	if !s.Dead {
+		s.CheckDump("while the next data file cannot be created")
+	}
+	os.Remove(obstacle)
+	s.MayFail = false
+	s.Log = append(s.Log, "-- obstacle removed")
+	for i := r.Range(3, 12); i > 0 && !s.Dead; i-- {
+		s.Exec(op())
+	}
+	if !s.Dead {
+		s.CheckDump("after the obstacle was removed")
+	}
+	if !s.Dead {
+		s.Exec(core.Op{Kind: "restart"})
+	}
+	if s.DB != nil {
+		s.Close()
+	}
+	res.Add("rotations", 1)
+	res.Add("boundary_records", 1)
+	res.Add("cases_with_refused_writes", 1)
+	res.Nontrivial = res.Counters["failed_calls_checked_for_no_effect"] >= 3
+	res.Hash = core.HashBytes([]byte(sc.Cfg.String()), []byte(fmt.Sprint(s.Log)))
+	if c.Index%100 == 0 {
+		res.Sample = map[string]any{"kind": "refused-writes", "config": sc.Cfg, "ops_tail": lastN(s.Log, 30)}
+	}
+	return res
 }
 
 // runLargePopulation: tens to hundreds of thousands of live keys with tiny values; every key
@@ -289,6 +369,9 @@ func (c01) Run(c core.Case, w *core.Worker) core.Result {
 	sc := c.Data.(seqCase)
 	if sc.NOps == -1 {
 		return runMmapRemap(c, sc, w)
+	}
+	if sc.NOps == -2 {
+		return runRefused(c, sc, w)
 	}
 	if sc.NOps < 0 {
 		return runLargePopulation(c, sc, w)
